@@ -26,7 +26,7 @@ def ISSUER_CANDS : List Nat := [4, 5, 6, 7, 8]
 def IDS : List Nat := [8, 9]
 def ID_CANDS : List Nat := [8, 9, 10]
 def ACCOUNTS : List Nat := [11, 12, 13]
-def TOPICS : List Nat := [1, 2, 7]
+def TOPICS : List Nat := [1, 2, 3, 7]
 def SCHEMES : List Nat := [101, 102, 103, 111, 112, 113]
 /-- the verifier (algorithm) a scheme number of the harness issuer selects; 0 = none -/
 def algOf (scheme : Nat) : Nat :=
@@ -118,7 +118,7 @@ def parseOp (ws : List String) : Option (Op SymSig) :=
       pure (.revoke (← n "i") (← n "d") (← n "t") (hexBytes ((kv? rest "data").getD "-")) ((← n "v") = 1))
     | "set_cti" => do pure (.setCti (← n "r"))
     | "set_irs" => pure .setIrs
-    | "time" => do pure (.time (← kvNat? rest "ts"))
+    | "time" | "advance" => do pure (.time (← kvNat? rest "ts"))   -- ledgers pass: persistent entries stay live, only the clock matters
     | "valid" => do
       let c ← parseClaim rest
       pure (.valid c.issuer (← n "d") c.topic c.scheme ⟨c.sl, c.pk, c.sig⟩ c.data)
@@ -279,7 +279,7 @@ def G.update (g : G) (ws : List String) : G :=
       { g with revoked := assocSet g.revoked (n "i", n "d", n "t", hexBytes ((kv? rest "data").getD "-")) (n "v" = 1) }
     | "set_cti" => { g with cti := some (n "r") }
     | "set_irs" => { g with virs := true }
-    | "time" => { g with ts := n "ts" }
+    | "time" | "advance" => { g with ts := n "ts" }   -- nothing else changes with time: revoked stays revoked, removed stays removed
     | _ => g
   | _ => g
 
@@ -296,15 +296,22 @@ another scheme number are another signing key), and the claim is neither expired
 def G.keyAllowed (g : G) (i pk scheme t : Nat) : Bool :=
   g.keys.any (fun x => x.1 == i && x.2.1 == pk && x.2.2.1 == scheme && x.2.2.2.1 == t)
 
-/-- every condition but "signed by a key currently allowed for the topic" -/
-def G.confirmsButKey (g : G) (i d t : Nat) (c : GClaim) : Bool :=
+def G.isRevoked (g : G) (i d t : Nat) (data : List Nat) : Bool :=
+  (assocGet g.revoked (i, d, t, data)).getD false
+
+/-- well-formed, genuinely signed over exactly (network, issuer, identity, topic, current nonce, data),
+not expired -/
+def G.coreOk (g : G) (i d t : Nat) (c : GClaim) : Bool :=
   ISSUERS.contains i
   && wellFormed c.scheme c.sl
   && (c.sig.ok && c.sig.ns == algOf c.scheme)
   && decide (c.sig.msg = { network := 0, issuer := i, identity := d, topic := t,
                            nonce := (assocGet g.nonce (i, d, t)).getD 0, data := c.data })
   && (match gValidUntil c.data with | some vu => decide (g.ts < vu) | none => false)
-  && !((assocGet g.revoked (i, d, t, c.data)).getD false)
+
+/-- every condition but "signed by a key currently allowed for the topic" -/
+def G.confirmsButKey (g : G) (i d t : Nat) (c : GClaim) : Bool :=
+  g.coreOk i d t c && !g.isRevoked i d t c.data
 
 def G.confirms (g : G) (i d t : Nat) (c : GClaim) : Bool :=
   g.confirmsButKey i d t c && g.keyAllowed i c.pk c.scheme t
@@ -347,7 +354,10 @@ def check (g : G) (opl obs : String) : G × Option String :=
         let d := (kvNat? ws "d").getD 0
         let want := g1.confirms c.issuer d c.topic c.toG
         if ok ∧ ¬ want then
-          if g1.confirmsButKey c.issuer d c.topic c.toG then
+          if g1.coreOk c.issuer d c.topic c.toG ∧ g1.keyAllowed c.issuer c.pk c.scheme c.topic
+              ∧ g1.isRevoked c.issuer d c.topic c.data then
+            some s!"site=identity.issuer.revoked_accepts issuer={c.issuer} identity={d} topic={c.topic}: is_claim_valid accepts a claim that was revoked and never un-revoked (now ts={g1.ts})"
+          else if g1.confirmsButKey c.issuer d c.topic c.toG then
             if g1.removed.contains (c.issuer, c.pk, c.scheme, c.topic) then
               some s!"site=identity.issuer.key_removed_accepts issuer={c.issuer} key={c.pk} scheme={c.scheme} topic={c.topic}: is_claim_valid accepts a claim signed by a (key, scheme) whose authorisation for the topic was removed"
             else
